@@ -396,7 +396,8 @@ class StmtMixin:
         if fr.yielded is not None:
             env['yielded'] = fr.yielded
         params = [a.arg for a in inv.pre_hint_node.args.args]
-        self.eval_clause(inv.pre_hint_node, dict(inv.pre_hint.__globals__), {p: self.freeze(env[p]) for p in params})
+        self.eval_hint(inv.pre_hint_node, dict(inv.pre_hint.__globals__),
+                       {p: self.freeze(env[p]) for p in params if p in env})
 
     def run_hint(self, inv, fr, old):
         if inv.hint is None:
@@ -407,7 +408,7 @@ class StmtMixin:
             env['yielded'] = fr.yielded
         params = [a.arg for a in inv.hint_node.args.args]
         g = dict(inv.hint.__globals__)
-        self.eval_clause(inv.hint_node, g, {p: self.freeze(env[p]) for p in params})
+        self.eval_hint(inv.hint_node, g, {p: self.freeze(env[p]) for p in params if p in env})
 
     def freeze(self, v):
         """immutable snapshot of a local for use in a contract clause"""
